@@ -74,7 +74,9 @@ func oracleC01Once(p *Pair, env *Env, a [][]byte) *Failure {
 			if len(fl) > 0 {
 				handFlat = strings.Join(fl, "\n") + "\n"
 			}
-			flat, prefixes, suffixes = handFlat, pre, suf
+			if !strings.Contains(handFlat, emptiedEntry) {
+				flat, prefixes, suffixes = handFlat, pre, suf
+			}
 		}
 	}
 	plain, altLists, err := plainReadingAlts(flat, prefixes, suffixes, cfg)
